@@ -20,6 +20,7 @@ from .core import AnalysisError, Module, Repo
 from .values import (
     NTuple,
     CtxGen,
+    GenV,
     BOTTOM,
     AutogradApply,
     Bound,
@@ -294,6 +295,9 @@ TRANSPARENT_DECORATORS = {
     "no_type_check",
     "wraps",
     "functools.wraps",
+    "abstractmethod",
+    "overload",
+    "final",
 }
 
 
@@ -307,6 +311,8 @@ def _contains_ctrl(stmts: Sequence[ast.stmt]) -> bool:
 
 def _walk_no_defs(node: ast.AST):
     yield node
+    if isinstance(node, (ast.FunctionDef, ast.AsyncFunctionDef, ast.ClassDef, ast.Lambda)):
+        return  # a nested definition's body belongs to that definition
     for ch in ast.iter_child_nodes(node):
         if isinstance(ch, (ast.FunctionDef, ast.AsyncFunctionDef, ast.ClassDef, ast.Lambda)):
             continue
@@ -341,7 +347,7 @@ class Interp:
         self.super_hook: Optional[Callable[..., Any]] = None  # model of external base-class methods
         self.call_stack: List[str] = []
         self._with_stack: List[List[Any]] = []
-        self._yield_stack: List[List[Any]] = []
+        self._gen_current: Any = None
         self._ctx_yield: List[Tuple[int, Any]] = []
         self._ctx_running: Any = None
         from . import extlib  # late import (extlib uses this module's names)
@@ -365,6 +371,14 @@ class Interp:
         for d in getattr(node, "decorator_list", []):
             base = d.func if isinstance(d, ast.Call) else d
             dn = _dotted(base)
+            # resolve import aliases (`import functools as _functools`, `from functools import wraps as _w`)
+            if dn and dn.split(".")[0] not in BUILTINS:
+                try:
+                    rv = self.eval(base, env or Env(None, {}), mi)
+                    if isinstance(rv, ExtV) and rv.name.split(".")[0] in ("functools", "contextlib", "torch", "dataclasses", "typing", "abc"):
+                        dn = rv.name
+                except Exception:
+                    pass
             short = dn.split(".")[-1] if dn else None
             if short == "staticmethod":
                 f.kind = "staticmethod"
@@ -587,17 +601,35 @@ class Interp:
             self.log("opaque-decorator", node, func=f)
             Interp.note_gap(f"{f.qualname} is wrapped by an unmodelled decorator {f.decorators}")
             return Unknown(f"{f.qualname} is wrapped by an unmodelled decorator {f.decorators}")
-        if f.registry and args:
-            # functools.singledispatch: the implementation registered for the class of the first argument
-            hits = []
-            for cls_, impl in f.registry:
+        if f.registry and args and not getattr(f, "_dispatching", False):
+            # functools.singledispatch: the implementation registered for the class of the first argument;
+            # a class test that is decided only at run time gives a gated value
+            cands = []
+            for cls_, impl in reversed(f.registry):
                 r_ = BUILTINS["isinstance"].fn(self, [args[0], cls_], {}, node)
-                if r_ is True:
-                    hits.append(impl)
-                elif r_ is not False:
+                if r_ is False:
+                    continue
+                if r_ is not True and (isinstance(r_, Gamma) or not _is_cond(r_)):
                     raise Unsupported(f"singledispatch of {f.qualname} on a value of undecided type")
-            if hits:
-                return self.call_function(hits[-1], args, kwargs, node)
+                cands.append((r_, impl))
+                if r_ is True:
+                    break
+
+            def dispatch(i: int) -> Any:
+                if i >= len(cands):
+                    f._dispatching = True  # type: ignore[attr-defined]
+                    try:
+                        return self._call_funcv(f, args, kwargs, node)
+                    finally:
+                        f._dispatching = False  # type: ignore[attr-defined]
+                c_, impl = cands[i]
+                if c_ is True:
+                    return self.call_function(impl, args, kwargs, node)
+                ra = self._guarded(c_, True, lambda: self.call_function(impl, args, kwargs, node))
+                rb = self._guarded(c_, False, lambda: dispatch(i + 1))
+                return self.mkgamma(c_, ra, rb)
+
+            return dispatch(0)
         if f.memo is not None and not getattr(f, "_memo_running", False):
             # functools.lru_cache / cache: results are remembered per argument tuple (hash / == of the
             # arguments; tensors and other objects by identity), for the life of the abstract process
@@ -649,7 +681,9 @@ class Interp:
             is_gen = False
             self._ctx_running = None
         if is_gen:
-            self._yield_stack.append([])
+            g_ = GenV(f, env)
+            g_.saved_mod = f.module
+            return g_
         saved_mod = self.cur_mod
         self.cur_mod = f.module
         self.depth += 1
@@ -660,14 +694,68 @@ class Interp:
             self.depth -= 1
             self.call_stack.pop()
             self.cur_mod = saved_mod
-            ys = self._yield_stack.pop() if is_gen else None
-        if is_gen:
-            # generator function: body evaluated eagerly, the yielded values form a one-shot iterable;
-            # an exception raised in the body surfaces when the generator is consumed
-            if val is BOTTOM:
-                return BOTTOM
-            return OneShot(ys)
         return val
+
+    # ------------------------------------------------------------------ generators (lazy, as coroutines)
+    def gen_next(self, g: GenV) -> Tuple[str, Any]:
+        """Advance a generator by one step: ("yield", value) | ("done", return value) | ("raise", None)."""
+        import threading
+
+        if g.state == "done":
+            return ("done", None)
+        if g.state == "running":
+            raise Unsupported("generator already executing")
+        base = (self.call_stack, self.depth, self.guard, self.cur_mod, self._gen_current)
+        g.base = (len(base[0]), base[1], len(base[2]))
+        self.call_stack = list(base[0]) + list(g.saved_call)
+        self.depth = base[1] + g.saved_depth
+        self.guard = list(base[2]) + list(g.saved_guard)
+        self.cur_mod = g.saved_mod
+        self._gen_current = g
+        try:
+            if g.state == "new":
+                g.state = "running"
+                threading.stack_size(256 * 1024 * 1024)
+                g.thread = threading.Thread(target=self._gen_body, args=(g,), daemon=True)
+                g.thread.start()
+            else:
+                g.state = "running"
+                g.to_gen.release()
+            g.to_con.acquire()
+        finally:
+            self.call_stack, self.depth, self.guard, self.cur_mod, self._gen_current = base
+        if g.exc is not None:
+            exc, g.exc = g.exc, None
+            g.state = "done"
+            raise exc
+        return g.outcome
+
+    def _gen_body(self, g: GenV) -> None:
+        f = g.func
+        try:
+            self.depth += 1
+            self.call_stack.append(f.qualname)
+            kind, val = self.exec_stmts(list(f.node.body), g.env, f.module, lambda e: ("return", None))
+            g.outcome = ("raise", None) if (kind == "raise" or val is BOTTOM) else ("done", val)
+        except BaseException as e:  # analysis exceptions travel to the consumer
+            g.exc = e
+            g.outcome = ("done", None)
+        finally:
+            g.state = "done"
+            g.to_con.release()
+
+    def gen_exhaust(self, g: GenV) -> List[Any]:
+        out: List[Any] = []
+        while True:
+            kind, v = self.gen_next(g)
+            if kind == "yield":
+                out.append(v)
+                if len(out) > 20000:
+                    raise Unsupported("generator does not terminate within the bound")
+            elif kind == "raise":
+                raise _Raised()
+            else:
+                return out
 
     def run(self, f: FuncV, **bound: Any) -> Any:
         """Entry point for rules: evaluate f with the given parameter values."""
@@ -705,8 +793,7 @@ class Interp:
                         raise Unsupported("enum lookup by a symbolic value")
             self.log("raise", node, exc="ValueError")
             return BOTTOM
-        decos = [_dotted(d.func if isinstance(d, ast.Call) else d) for d in c.node.decorator_list]
-        if any(d and d.split(".")[-1] == "dataclass" for d in decos):
+        if self.is_dataclass(c):
             fields = []
             for st in c.node.body:
                 if isinstance(st, ast.AnnAssign) and isinstance(st.target, ast.Name):
@@ -853,6 +940,21 @@ class Interp:
             if isinstance(b, ClassV) and depth < 10:
                 out.extend(self._all_bases(b, depth + 1))
         return out
+
+    def is_dataclass(self, c: ClassV) -> bool:
+        """Is the class decorated with dataclasses.dataclass (under any import alias)?"""
+        for d in c.node.decorator_list:
+            base = d.func if isinstance(d, ast.Call) else d
+            dn = _dotted(base) or ""
+            if dn.split(".")[-1] == "dataclass":
+                return True
+            try:
+                rv = self.eval(base, Env(c.env, {}), c.module)
+            except Exception:
+                continue
+            if isinstance(rv, ExtV) and rv.name == "dataclasses.dataclass":
+                return True
+        return False
 
     def class_const(self, c: ClassV, name: str, expr: ast.AST) -> Any:
         """A class-level attribute is evaluated once (one object shared by every access, as in Python)."""
@@ -1008,8 +1110,11 @@ class Interp:
             v = self.eval(st.value, env, mi)
             if v is BOTTOM:
                 return ("raise", None)
-            for t in st.targets:
-                self.assign(t, v, env, mi, st)
+            try:
+                for t in st.targets:
+                    self.assign(t, v, env, mi, st)
+            except (_AssignRaised, _Raised):
+                return ("raise", None)
             return None
         if isinstance(st, ast.AnnAssign):
             if st.value is not None:
@@ -1070,7 +1175,10 @@ class Interp:
                 return None
             if it is BOTTOM:
                 return ("raise", None)
-            seq = self.concrete_iter(it)
+            try:
+                seq = _LazySeq(self, it) if isinstance(it, GenV) else (_live_list(it) if type(it) is list else self.concrete_iter(it))
+            except _Raised:
+                return ("raise", None)
             if seq is None and isinstance(it, (TV, Obj)) and not (isinstance(it, TV) and it.kind == "tensor") and not st.orelse:
                 # a collection held by an external (uninterpreted) object: its elements are unknown; the
                 # body is evaluated once, on an uninterpreted element, under the guard "non-empty"
@@ -1088,7 +1196,18 @@ class Interp:
                 return None
             if seq is None:
                 raise Unsupported(f"loop over non-concrete iterable at {mi.rel}:{st.lineno}")
-            for item in seq:
+            seq_it = iter(seq)
+            while True:
+                try:
+                    item = next(seq_it)
+                except StopIteration:
+                    if st.orelse:
+                        kind, val = self.exec_stmts(list(st.orelse), env, mi, lambda e: ("next", None))
+                        if kind == "return":
+                            return ("return", val)
+                    break
+                except _Raised:
+                    return ("raise", None)
                 if isinstance(item, Maybe):
                     # conditional member: the body runs under the membership guard
                     self.assign(st.target, item.value, env, mi, st)
@@ -1104,11 +1223,6 @@ class Interp:
                     return ("return", val)
                 if kind == "break":
                     break
-            else:
-                if st.orelse:
-                    kind, val = self.exec_stmts(list(st.orelse), env, mi, lambda e: ("next", None))
-                    if kind == "return":
-                        return ("return", val)
             return None
         if isinstance(st, ast.Match):
             kind, val = self.exec_stmts(self._lower_match(st, env, mi), env, mi, lambda e: ("next", None))
@@ -1327,7 +1441,7 @@ class Interp:
                     margs = self.class_attr(cls, "__match_args__")
                     if margs is None and self.is_subclass_of_ext(cls, "NamedTuple"):
                         margs = self.getattr(cls, "_fields", pat)
-                    if margs is None and any((_dotted(d.func if isinstance(d, ast.Call) else d) or "").split(".")[-1] == "dataclass" for d in cls.node.decorator_list):
+                    if margs is None and self.is_dataclass(cls):
                         margs = tuple(st.target.id for st in cls.node.body if isinstance(st, ast.AnnAssign) and isinstance(st.target, ast.Name))
                 if margs is None:
                     if len(pat.patterns) == 1 and not isinstance(cls, ClassV):
@@ -1417,11 +1531,26 @@ class Interp:
 
     def concrete_iter_peek(self, it: Any) -> Optional[List[Any]]:
         """concrete_iter without consuming a one-shot iterable."""
+        if isinstance(it, GenV) or type(it).__name__ == "LiveIter":
+            return []  # cannot look ahead: treated as a concrete (lazy) iterable
         if isinstance(it, OneShot):
             return [] if it.consumed else list(it)[it.pos :]
         return self.concrete_iter(it)
 
     def concrete_iter(self, it: Any) -> Optional[List[Any]]:
+        if isinstance(it, GenV):
+            return self.gen_exhaust(it)
+        if type(it).__name__ == "LiveIter":
+            out_: List[Any] = []
+            while not it.done and len(out_) < 5000:
+                nxt = it.live.after(it.cur) if it.started else it.live.first()
+                it.started = True
+                if nxt is None:
+                    it.done = True
+                    break
+                it.cur = nxt
+                out_.append(nxt)
+            return out_
         if isinstance(it, OneShot):
             if it.consumed:
                 return []
@@ -1518,20 +1647,23 @@ class Interp:
         star = [i for i, e in enumerate(target.elts) if isinstance(e, ast.Starred)]
         if v is BOTTOM:
             return [BOTTOM] * n
+        if isinstance(v, (GenV, OneShot)) or type(v).__name__ == "LiveIter" or isinstance(v, (set, frozenset, dict, range)):
+            v = self.concrete_iter(v)
         if isinstance(v, (tuple, list)):
             seq = list(v)
             if star:
                 s = star[0]
                 after = n - s - 1
                 if len(seq) < n - 1:
-                    raise Unsupported("unpack: too few values")
+                    self.log("raise", target, exc="ValueError(unpack)")
+                    raise _AssignRaised()
                 mid = seq[s : len(seq) - after]
                 out = seq[:s] + [list(mid)] + seq[len(seq) - after :]
                 # the Starred target is assigned via its .value below
                 return out
             if len(seq) != n:
                 self.log("raise", target, exc="ValueError(unpack)")
-                return [Unknown("unpack arity mismatch")] * n
+                raise _AssignRaised()
             return seq
         if isinstance(v, (TV, Obj)):
             return [TV(T("getitem", (_term(v), i)), kind=getattr(v, "kind", "tensor")) for i in range(n)]
@@ -1803,6 +1935,8 @@ class Interp:
         if isinstance(a, str) or isinstance(b, str):
             if name == "add" and isinstance(a, str) and isinstance(b, str):
                 return a + b
+            if name == "mod" and isinstance(a, str):
+                return _percent_format(a, b)
             if name == "mod":
                 return "<formatted>"
             if name == "mul":
@@ -2230,17 +2364,43 @@ class Interp:
             cb(self.eval(n.value, env, mi) if n.value is not None else None)
             return None
         v = self.eval(n.value, env, mi) if n.value is not None else None
-        if not self._yield_stack:
-            raise Unsupported("yield outside a generator function")
-        self._yield_stack[-1].append(v)
+        self._yield_value(v)
         return None
+
+    def _yield_value(self, v: Any) -> None:
+        g = self._gen_current
+        if g is None:
+            raise Unsupported("yield outside a generator function")
+        # elements produced under conditions decided only at run time (inside this generator) are conditional members
+        own_guard = self.guard[g.base[2] :]
+        if own_guard:
+            conds = [c if pol else _not(c) for c, pol in own_guard]
+            v = Maybe(conds[0] if len(conds) == 1 else _boolcomb(True, conds), v)
+        g.saved_call = self.call_stack[g.base[0] :]
+        g.saved_depth = self.depth - g.base[1]
+        g.saved_guard = own_guard
+        g.saved_mod = self.cur_mod
+        g.outcome = ("yield", v)
+        g.state = "suspended"
+        g.to_con.release()
+        g.to_gen.acquire()  # resumed by the next gen_next(), which has installed the stacks again
 
     def e_YieldFrom(self, n: ast.YieldFrom, env: Env, mi: ModInfo) -> Any:
         v = self.eval(n.value, env, mi)
+        if isinstance(v, GenV):
+            while True:
+                kind, x = self.gen_next(v)
+                if kind == "yield":
+                    self._yield_value(x)
+                elif kind == "raise":
+                    raise _Raised()
+                else:
+                    return x
         seq = self.concrete_iter(v)
-        if seq is None or not self._yield_stack:
+        if seq is None:
             raise Unsupported("yield from a non-concrete iterable")
-        self._yield_stack[-1].extend(seq)
+        for x in seq:
+            self._yield_value(x)
         return None
 
     def e_Starred(self, n: ast.Starred, env: Env, mi: ModInfo) -> Any:
@@ -2259,10 +2419,20 @@ class Interp:
         it = self.eval(g.iter, env, mi)
         if it is BOTTOM:
             raise _CompRaised()
-        seq = self.concrete_iter(it)
+        try:
+            seq = _LazySeq(self, it) if isinstance(it, GenV) else self.concrete_iter(it)
+        except _Raised:
+            raise _CompRaised()
         if seq is None:
             raise Unsupported(f"comprehension over non-concrete iterable at {mi.rel}:{getattr(g.iter, 'lineno', '?')}")
-        for item in seq:
+        seq_it = iter(seq)
+        while True:
+            try:
+                item = next(seq_it)
+            except StopIteration:
+                break
+            except _Raised:
+                raise _CompRaised()
             e2 = Env(env, {})
             self.assign(g.target, item, e2, mi, g.iter)
             ok = True
@@ -2349,6 +2519,12 @@ class Interp:
         return out
 
     def e_Call(self, n: ast.Call, env: Env, mi: ModInfo) -> Any:
+        try:
+            return self._e_call(n, env, mi)
+        except _Raised:
+            return BOTTOM  # a generator consumed while evaluating this call raised
+
+    def _e_call(self, n: ast.Call, env: Env, mi: ModInfo) -> Any:
         # super().__init__(...) and friends
         if isinstance(n.func, ast.Attribute) and isinstance(n.func.value, ast.Call) and isinstance(n.func.value.func, ast.Name) and n.func.value.func.id == "super":
             return self._super_call(n, env, mi)
@@ -2381,7 +2557,10 @@ class Interp:
             return BOTTOM  # evaluating the callee or an argument raised: the call never happens
         if star_unknown and isinstance(f, (FuncV, ClassV)) and not (isinstance(f, FuncV) and self.opaque(f)):
             raise Unsupported(f"call with non-concrete * / ** arguments at {mi.rel}:{n.lineno}")
-        return self.call_function(f, args, kwargs, n)
+        try:
+            return self.call_function(f, args, kwargs, n)
+        except _Raised:
+            return BOTTOM  # a generator consumed by this call raised
 
     def _super_call(self, n: ast.Call, env: Env, mi: ModInfo) -> Any:
         ok, selfv = env.lookup("self")
@@ -2433,6 +2612,43 @@ class Interp:
 class _OpaqueStar(Exception):
     def __init__(self, value: Any):
         self.value = value
+
+
+def _live_list(lst: list):
+    """Iteration over a list follows the list as it is (elements appended during the loop are visited)."""
+    i = 0
+    while i < len(lst):
+        yield lst[i]
+        i += 1
+        if i > 20000:
+            raise Unsupported("loop over a growing list does not terminate within the bound")
+
+
+class _AssignRaised(Unsupported):
+    """Unpacking failed (ValueError in the analysed program)."""
+
+
+class _LazySeq:
+    """Python-level iterator over a generator of the analysed program (one step per element)."""
+
+    def __init__(self, it: "Interp", g: GenV):
+        self.it, self.g = it, g
+
+    def __iter__(self) -> "_LazySeq":
+        return self
+
+    def __next__(self) -> Any:
+        kind, v = self.it.gen_next(self.g)
+        if kind == "yield":
+            return v
+        if kind == "raise":
+            raise _Raised()
+        raise StopIteration
+
+
+class _Raised(Unsupported):
+    """A Python exception raised by the analysed program while a generator was being consumed; converted
+    to BOTTOM by the nearest enclosing call / loop / comprehension."""
 
 
 class _CompRaised(Exception):
@@ -2574,6 +2790,25 @@ def _list_method(it: Interp, l: List[Any], attr: str, a: List[Any], k: Dict[str,
                 return i
         return BOTTOM
     raise Unsupported(f"list.{attr}")
+
+
+def _percent_format(fmt_s: str, arg: Any) -> str:
+    """printf-style formatting: string arguments are substituted exactly, other values as placeholders."""
+    import re as _re
+
+    if isinstance(arg, dict):
+        return _re.sub(r"%\((\w+)\)[-#0 +]*\d*(?:\.\d+)?[sdrfgeixX]", lambda m: format_value(arg.get(m.group(1), "{?}")), fmt_s).replace("%%", "%")
+    args = list(arg) if isinstance(arg, tuple) else [arg]
+    pos = [0]
+
+    def sub(m: Any) -> str:
+        if m.group(0) == "%%":
+            return "%"
+        i = pos[0]
+        pos[0] += 1
+        return format_value(args[i]) if i < len(args) else "{?}"
+
+    return _re.sub(r"%%|%[-#0 +]*\d*(?:\.\d+)?[sdrfgeixXc]", sub, fmt_s)
 
 
 def format_value(val: Any) -> str:
